@@ -316,7 +316,7 @@ PROPS["C18"] = {
     "level_text": "Random.tla models the minstd step (Schrage) and the u64->f32 rounding, ratio, index and swap sequence in 32-bit integer arithmetic; "
                   "TLC checks on the low band, the high band, a coarse grid and the predecessors of all 63 successors with ratio 1 that the raw "
                   "formula leaves the range exactly there and that the contract index is in bounds and shuffles are permutations; every record "
-                  "(state, length) is replayed: value in [min,max] for 16 intervals (incl. degenerate and sub-epsilon ones), index = model, sequence = minstd, shuffle = model permutation, "
+                  "(state, length) is replayed: value in [min,max] for 18 intervals (incl. degenerate and sub-epsilon ones), index = model, sequence = minstd, shuffle = model permutation, "
                   "64-bit seeds above the modulus, Tensor::random shapes/bounds; a sweep over generator states (every 4099th in the quick tier, all "
                   "2^31-2 in the thorough tier) checks range and bounds",
     "level_note": "TLC enumerates bands, not all 2^31 states: the full-range statement rests on the harness sweep (plain enumeration against the "
